@@ -166,24 +166,31 @@ func C16(c *core.Ctx) {
 		unwrap any
 	}
 	var rows []row
-	r := c.MustTLC(core.TLCOpts{Module: "MC_Tlv", Cfg: core.Pick(c, "MC_Tlv_quick.cfg", "MC_Tlv_full.cfg"), Timeout: 0})
-	for _, line := range r.Lines {
-		if !strings.HasPrefix(line, "<<\"T\"") {
-			continue
+	// ... and a second table of longer strings over the nesting alphabet {00, 02, (04,) 30, 80}: definite and indefinite
+	// constructed elements inside each other with end-of-contents octets at every position
+	for _, cfg := range []string{core.Pick(c, "MC_Tlv_quick.cfg", "MC_Tlv_full.cfg"), core.Pick(c, "MC_Tlv_nestq.cfg", "MC_Tlv_nest.cfg")} {
+		r := c.MustTLC(core.TLCOpts{Module: "MC_Tlv", Cfg: cfg, Timeout: 0, Workers: 8})
+		n0 := len(rows)
+		for _, line := range r.Lines {
+			if !strings.HasPrefix(line, "<<\"T\"") {
+				continue
+			}
+			v, err := core.ParseTLA(line)
+			if err != nil {
+				core.Infra("C16: %v", err)
+			}
+			t := v.([]any)
+			rows = append(rows, row{core.Bytes(t[1]), t[2], t[3]})
 		}
-		v, err := core.ParseTLA(line)
-		if err != nil {
-			core.Infra("C16: %v", err)
+		if int64(len(rows)-n0) != r.Distinct || len(rows) == n0 {
+			core.Infra("C16: table of %s has %d rows, TLC found %d states", cfg, len(rows)-n0, r.Distinct)
 		}
-		t := v.([]any)
-		rows = append(rows, row{core.Bytes(t[1]), t[2], t[3]})
-	}
-	if int64(len(rows)) != r.Distinct || len(rows) == 0 {
-		core.Infra("C16: table has %d rows, TLC found %d states", len(rows), r.Distinct)
 	}
 	c.Exhaustive = true
 	c.Extra["alphabet"] = "00 01 02 04 1F 30 3F 7F 80 81 82 84 85 FF"
 	c.Extra["max_len"] = core.Pick(c, 4, 5)
+	c.Extra["nesting_alphabet"] = core.Pick(c, "00 02 30 80", "00 02 04 30 80")
+	c.Extra["nesting_max_len"] = 8
 
 	core.ParallelFor(len(rows), func(i int) {
 		rw := rows[i]
@@ -225,6 +232,9 @@ func C16(c *core.Ctx) {
 			}
 			if law := roundTripLaw(nodes); law != "" {
 				c.Violation("C16:round-trip", fmt.Sprintf("tlv.Decode(%x) accepted, %s", in, law), rp)
+			}
+			if law := ownTreeLaw(in); law != "" {
+				c.Violation("C16:tree-shares-memory", fmt.Sprintf("tlv.Decode(%x): %s", in, law), rp)
 			}
 			if d := checkLookups(nodes.NodeByTagOccur, nodes.Nodes(), forest); d != "" {
 				c.Violation("C16:lookup", fmt.Sprintf("input %x: %s", in, d), rp)
@@ -281,6 +291,9 @@ func C16(c *core.Ctx) {
 		if err == nil && pan == nil {
 			if law := roundTripLaw(nodes); law != "" {
 				c.Violation("C16:round-trip", fmt.Sprintf("tlv.Decode(%x) accepted, %s", in, law), map[string]any{"input": core.Hex(in)})
+			}
+			if law := ownTreeLaw(in); law != "" {
+				c.Violation("C16:tree-shares-memory", fmt.Sprintf("tlv.Decode(%x): %s", in, law), map[string]any{"input": core.Hex(in)})
 			}
 		}
 	})
@@ -359,6 +372,47 @@ func roundTripLaw(nodes *tlv.TlvNodes) string {
 		return fmt.Sprintf("but its re-encoding %x is not a fixed point (%x)", enc, enc2)
 	}
 	return ""
+}
+
+// ownTreeLaw: the tree is a VALUE - "the value bytes BER assigns to that input" stay what they were when the caller
+// re-uses its input buffer (a receive buffer) and when it appends to a value it was handed: neither may change what
+// the tree re-encodes to, nor a sibling's value.
+func ownTreeLaw(in []byte) string {
+	buf := bytes.Clone(in)
+	nodes, err, pan := safeDecode(buf)
+	if err != nil || pan != nil {
+		return ""
+	}
+	before := nodes.Encode()
+	tree := func() []byte { b, _ := json.Marshal(realTreeJSON(nodes.Nodes())); return b }
+	t0 := tree()
+	for i := range buf {
+		buf[i] ^= 0xFF
+	}
+	if after := nodes.Encode(); !bytes.Equal(after, before) || !bytes.Equal(tree(), t0) {
+		return fmt.Sprintf("the decoded tree changed when the caller overwrote its input buffer (re-encoding %x, before %x)", after, before)
+	}
+	var walk func(ns []tlv.TlvNode) string
+	walk = func(ns []tlv.TlvNode) string {
+		for _, n := range ns {
+			if n == nil {
+				continue
+			}
+			if ch := n.Children(); len(ch) > 0 {
+				if r := walk(ch); r != "" {
+					return r
+				}
+				continue
+			}
+			v := n.Value()
+			_ = append(v, 0xEE, 0xEE, 0xEE, 0xEE)
+			if after := nodes.Encode(); !bytes.Equal(after, before) {
+				return fmt.Sprintf("appending to the value of element %x changed the tree (re-encoding %x, before %x)", tagOctets(n.Tag()), after, before)
+			}
+		}
+		return ""
+	}
+	return walk(nodes.Nodes())
 }
 
 // ---- generators ----------------------------------------------------------------------------
